@@ -35,18 +35,19 @@ func init() {
 }
 
 var compileExprs = []string{"1", "concat('a', 'b')", "contains(a, 'x')", "not(true())", "1 +", "foo(1)"}
-var machineExprs = []string{"a = 'x'", "/l[k = current()/../x]/v", "string-length(concat(a, b))"}
+var machineExprs = []string{"a = 'x'", "/l[k = current()/../x]/v", "string-length(concat(a, b))", "l[k = ../x][j = 'c']/v"}
 
 type op struct {
 	Kind string `json:"kind"` // compile | run | runfail
 	Arg  int    `json:"arg"`
+	Ctx  int    `json:"ctx,omitempty"` // run: which context position (the data values depend on it)
 }
 
 func (o op) String() string {
 	if o.Kind == "compile" {
 		return "compile(" + compileExprs[o.Arg] + ")"
 	}
-	return o.Kind + "(" + machineExprs[o.Arg] + ")"
+	return fmt.Sprintf("%s(%s @ctx%d)", o.Kind, machineExprs[o.Arg], o.Ctx)
 }
 
 var machines []*xpath.Machine
@@ -65,8 +66,26 @@ func ensureMachines() {
 	// the snapshot of global state is the one taken at process start (plugins not loaded)
 }
 
-// perform executes one operation and returns its observation.
-func perform(o op) string {
+// perform executes one operation on the shared machines and returns its observation.
+func perform(o op) string { return performOn(o, machines) }
+
+// performFresh is the isolated reference: the machine is compiled for this one run.
+func performFresh(o op) string {
+	if o.Kind == "compile" {
+		return performOn(o, nil)
+	}
+	ms := make([]*xpath.Machine, len(machineExprs))
+	m, err, p := xpx.Compile(machineExprs[o.Arg], nil)
+	if err != nil || p != nil {
+		panic(fmt.Sprint("c06: cannot compile ", machineExprs[o.Arg], err, p))
+	}
+	ms[o.Arg] = m
+	return performOn(o, ms)
+}
+
+var ctxPositions = [][]mock.Elem{{{Name: "top"}, {Name: "ctx"}}, {{Name: "alt"}, {Name: "other"}}}
+
+func performOn(o op, machines []*xpath.Machine) string {
 	switch o.Kind {
 	case "compile":
 		m, err, p := xpx.Compile(compileExprs[o.Arg], nil)
@@ -82,7 +101,7 @@ func perform(o op) string {
 		if o.Kind == "runfail" {
 			t.FailAt = map[int]bool{1: true}
 		}
-		obs := xpx.RunMachine(machines[o.Arg], t.At(mock.Elem{Name: "top"}, mock.Elem{Name: "ctx"}))
+		obs := xpx.RunMachine(machines[o.Arg], t.At(ctxPositions[o.Ctx]...))
 		return obs.String() + " calls=" + strings.Join(t.CallStrings(), ",") + " listing=" + machines[o.Arg].PrintMachine()
 	}
 }
@@ -114,7 +133,7 @@ func isolated(prog []op) []string {
 	verifrt.RestoreAll()
 	var out []string
 	for _, o := range prog {
-		out = append(out, perform(o))
+		out = append(out, performFresh(o))
 	}
 	return out
 }
@@ -201,16 +220,18 @@ func sharesMachine(a, b []op) bool {
 
 func programs() [][]op {
 	return [][]op{
-		{{"compile", 1}},
-		{{"compile", 2}},
-		{{"compile", 3}, {"compile", 1}},
-		{{"compile", 4}},
-		{{"compile", 5}, {"compile", 2}},
-		{{"compile", 0}, {"run", 2}},
-		{{"run", 0}},
-		{{"run", 1}, {"compile", 1}},
-		{{"run", 2}, {"run", 0}},
-		{{"runfail", 1}},
+		{{Kind: "compile", Arg: 1}},
+		{{Kind: "compile", Arg: 2}},
+		{{Kind: "compile", Arg: 3}, {Kind: "compile", Arg: 1}},
+		{{Kind: "compile", Arg: 4}},
+		{{Kind: "compile", Arg: 5}, {Kind: "compile", Arg: 2}},
+		{{Kind: "compile", Arg: 0}, {Kind: "run", Arg: 2}},
+		{{Kind: "run", Arg: 0}},
+		{{Kind: "run", Arg: 1}, {Kind: "compile", Arg: 1}},
+		{{Kind: "run", Arg: 2}, {Kind: "run", Arg: 0}},
+		{{Kind: "runfail", Arg: 1}},
+		{{Kind: "run", Arg: 1, Ctx: 1}, {Kind: "run", Arg: 3}},
+		{{Kind: "run", Arg: 3, Ctx: 1}},
 	}
 }
 
@@ -244,11 +265,12 @@ func run(c *engine.Ctx) {
 		tb = 2
 	}
 	for m := range machineExprs {
-		scenarios = append(scenarios, scenario{Threads: [][]op{{{"run", m}}, {{"run", m}}}, Tick: true, Bound: tb})
-		scenarios = append(scenarios, scenario{Threads: [][]op{{{"run", m}}, {{"runfail", m}}}, Tick: true, Bound: tb})
-		scenarios = append(scenarios, scenario{Threads: [][]op{{{"run", m}}, {{"compile", 1}}}, Tick: true, Bound: tb})
+		scenarios = append(scenarios, scenario{Threads: [][]op{{{Kind: "run", Arg: m}}, {{Kind: "run", Arg: m}}}, Tick: true, Bound: tb})
+		scenarios = append(scenarios, scenario{Threads: [][]op{{{Kind: "run", Arg: m}}, {{Kind: "run", Arg: m, Ctx: 1}}}, Tick: true, Bound: tb})
+		scenarios = append(scenarios, scenario{Threads: [][]op{{{Kind: "run", Arg: m}}, {{Kind: "runfail", Arg: m}}}, Tick: true, Bound: tb})
+		scenarios = append(scenarios, scenario{Threads: [][]op{{{Kind: "run", Arg: m}}, {{Kind: "compile", Arg: 1}}}, Tick: true, Bound: tb})
 		if !c.Quick() {
-			scenarios = append(scenarios, scenario{Threads: [][]op{{{"run", m}}, {{"run", m}}, {{"run", (m + 1) % 3}}}, Tick: true, Bound: 1})
+			scenarios = append(scenarios, scenario{Threads: [][]op{{{Kind: "run", Arg: m}}, {{Kind: "run", Arg: m, Ctx: 1}}, {{Kind: "run", Arg: (m + 1) % len(machineExprs)}}}, Tick: true, Bound: 1})
 		}
 	}
 	c.Note(fmt.Sprintf("%d scenarios; instrumented mutable package variables: %v", len(scenarios), verifrt.StateVars()))
@@ -323,12 +345,12 @@ var lastObs [][]string
 func historyAlphabet() []op {
 	var a []op
 	for i := range compileExprs {
-		a = append(a, op{"compile", i})
+		a = append(a, op{Kind: "compile", Arg: i})
 	}
 	for i := range machineExprs {
-		a = append(a, op{"run", i})
+		a = append(a, op{Kind: "run", Arg: i}, op{Kind: "run", Arg: i, Ctx: 1})
 	}
-	a = append(a, op{"runfail", 0}, op{"runfail", 1})
+	a = append(a, op{Kind: "runfail", Arg: 0}, op{Kind: "runfail", Arg: 1}, op{Kind: "runfail", Arg: 3, Ctx: 1})
 	return a
 }
 
@@ -346,7 +368,7 @@ func checkHistory(h []op) []engine.Violation {
 	}
 	// after the whole history every machine still behaves as in isolation
 	for m := range machineExprs {
-		o := op{"run", m}
+		o := op{Kind: "run", Arg: m}
 		if got, want := perform(o), isolatedCache(o); got != want {
 			vs = append(vs, engine.Violation{Key: "history-changes-result:run", Witness: fmt.Sprint(h) + " then " + o.String(),
 				Detail: fmt.Sprintf("got %q; in isolation %q", got, want), Harness: "history", Replay: engine.JSON(rec{History: append(append([]op{}, h...), o)})})
@@ -363,7 +385,7 @@ func isolatedCache(o op) string {
 		return v
 	}
 	verifrt.RestoreAll()
-	v := perform(o)
+	v := performFresh(o)
 	isoCache[o] = v
 	return v
 }
